@@ -61,8 +61,12 @@ def sim_obligations(chi_sym, make_model, label):
         mm = make_model()
         if ov is not None:
             mm.set_outputs(ov)
-        for sens, subset in ((False, None), (True, None), (True, 'subset')):
+        for sens, subset in ((False, None), (True, None), (True, 'subset'), (True, 'subset after renaming')):
             if sens:
+                if subset == 'subset after renaming':
+                    # renaming parameters that are not a prefix of the published order must not change which parameter a name selects
+                    pn0 = mm.parameters()
+                    mm.set_parameter_names(dict([(pn0[-1], 'Q_last')] + ([(pn0[len(pn0) // 2], 'Q_mid')] if len(pn0) > 2 else [])))
                 pn = mm.parameters()
                 if subset:
                     sub = [pn[-1]] + ([pn[0]] if len(pn) > 1 else [])      # deliberately not in published order
@@ -78,7 +82,7 @@ def sim_obligations(chi_sym, make_model, label):
             out = paths[0][1][1]
             sim = mm._simulator
             snap = sim.snapshot()
-            tag = 'outputs=%s sens=%s' % (ov, 'subset' if subset else sens)
+            tag = 'outputs=%s sens=%s' % (ov, subset if subset else sens)
             ok, msg = True, ''
             for k, nm in enumerate(mm._parameter_names):
                 holder = snap['state'] if k < len(states) else snap['constants']
